@@ -431,6 +431,9 @@ def run(ck, facts):
     ops = re.findall(r"operator(==|!=|<=|>=|<|>)\(const [^)]*\) const", C.read_repo("tool/templates/cpp/method_impl.h.jinja"))
     ck.expect(len(ops) >= 6, "R7", "cpp/method_impl.h/const-comparison-operators", "%d const operators" % len(ops), "the comparison operators are no longer the 6 hard-coded const members this rule pairs the qualifier with (%d found)" % len(ops), "tool/templates/cpp/method_impl.h.jinja")
     cpp_struct_field_window(ck, "R7", facts)
+    # a generated JS enum module parses for every discriminant, negative ones included (computed keys; rule of C11.R1)
+    import c11
+    c11.run(C.SubCheck(ck, "R5", "", ["R1"], key_re=r"js/enum\.js\.jinja/computed"), facts)
     # the C names the C++ headers mention (the embedded capi declarations are printed by the C backend) are produced by the C formatter itself: every `fmt_c_*` function of the
     # C++ formatter delegates to CFormatter and builds nothing of its own
     nfc = 0
